@@ -83,7 +83,12 @@ func runRW(c RWCase, count bool) rwOutcome {
 			if n < 0 {
 				n = 0
 			}
-			if _, err := rw.Write(b[:n]); err != nil {
+			q := append([]byte(nil), b[:n]...) // the caller's buffer, reused after Write has returned
+			_, err := rw.Write(q)
+			for i := range q {
+				q[i] ^= 0xA5
+			}
+			if err != nil {
 				res.writeErr = err
 				break
 			}
